@@ -136,6 +136,8 @@ def gen_callbacks(rng: random.Random, P: Profile, scn: Scn, evs):
                yields=rng.randint(0, P.max_yields) if coro else 0)
         if rng.random() < P.p_wrap:
             c.wrap = rng.choice(["wraps", "sig"])
+        elif style in ("conv", "name") and provider != "-" and rng.random() < P.p_wrap / 2:
+            c.wrap = "prop"      # exposed through a property that returns the bound method
         scn.cbs.append(c)
         return c
 
@@ -282,13 +284,13 @@ def gen_acts(rng: random.Random, P: Profile, scn: Scn, evs, n_ops):
             tid = rng.randint(0, horizon)
             if can_fault(c, tid):
                 busy.setdefault(tid, set()).add(phase_of(c))
-                rows_first.append((c.id, tid, tid, 0, rng.randint(1, 17), []))
+                rows_first.append((c.id, tid, tid, 0, rng.randint(1, 19), []))
     for c in vals:
         if rng.random() < P.p_validator_raise:
             tid = rng.randint(1, horizon)
             if can_fault(c, tid):
                 busy.setdefault(tid, set()).add("validators")
-                rows_first.append((c.id, tid, tid, 0, rng.randint(1, 17), []))
+                rows_first.append((c.id, tid, tid, 0, rng.randint(1, 19), []))
     scn.acts = rows_first + rows_last
 
 
